@@ -296,26 +296,59 @@ def lean_stage(ctx, modules, gen=None):
     return ok_all
 
 
-class LeanDriver:
-    """batch line protocol: send all lines, get all answers"""
+DRIVER_TEMPLATE = """%(imports)s
+/-! generated by harness/common.py: line-protocol driver for %(mods)s -/
+def handlers : List (List String → Option String) := [%(handlers)s]
+def handleLine (line : String) : String :=
+  let ws := (line.trimAscii.toString.splitOn " ").filter (· ≠ "")
+  (handlers.findSome? (fun h => h ws)).getD "bad-op"
+partial def loop (h : IO.FS.Stream) (out : IO.FS.Stream) : IO Unit := do
+  let line ← h.getLine
+  if line.isEmpty then return ()
+  out.putStrLn (handleLine line)
+  loop h out
+def main : IO Unit := do
+  let out ← IO.getStdout
+  loop (← IO.getStdin) out
+  out.flush
+"""
 
-    def __init__(self):
-        ok, log = lake_build(["SrModel", "Gen"])
+
+class LeanDriver:
+    """batch line protocol: send all lines, get all answers.
+
+    `modules` are the model modules whose `handle` functions serve the requests, e.g.
+    ["SrModel.Adaptive"]; a small driver importing only those is generated under .lake/, so an
+    unrelated model file that does not compile cannot break this check."""
+
+    def __init__(self, modules):
+        self.modules = list(modules)
+        ok, log = lake_build(self.modules)
         if not ok:
             raise Infra("model does not build:\n" + log[-2000:])
+        os.makedirs(os.path.join(LEAN, ".lake"), exist_ok=True)
+        self.path = os.path.join(LEAN, ".lake", "drv_%s.lean" % "_".join(m.replace(".", "") for m in self.modules))
+        src = DRIVER_TEMPLATE % {
+            "imports": "\n".join("import " + m for m in self.modules),
+            "mods": ", ".join(self.modules),
+            "handlers": ", ".join(m + ".handle" for m in self.modules),
+        }
+        if not os.path.exists(self.path) or open(self.path).read() != src:
+            with open(self.path, "w") as f:
+                f.write(src)
 
     def ask(self, lines, timeout=1800):
         if not lines:
             return []
         data = "\n".join(lines) + "\n"
-        p = subprocess.run(["lake", "env", "lean", "--run", "Main.lean"], cwd=LEAN, env=_env(), input=data,
+        p = subprocess.run(["lake", "env", "lean", "--run", self.path], cwd=LEAN, env=_env(), input=data,
                            stdout=subprocess.PIPE, stderr=subprocess.PIPE, text=True, timeout=timeout)
         out = p.stdout.split("\n")
         if out and out[-1] == "":
             out.pop()
         if p.returncode != 0 or len(out) != len(lines):
-            raise Infra("lean driver: rc=%s, %d answers for %d lines\n%s" % (
-                p.returncode, len(out), len(lines), p.stderr[-2000:]))
+            raise Infra("lean driver: rc=%s, %d answers for %d lines\n%s\n%s" % (
+                p.returncode, len(out), len(lines), p.stderr[-2000:], p.stdout[-500:]))
         return out
 
 
